@@ -148,6 +148,16 @@ pub fn depth_family() -> Vec<String> {
         v.push("'".repeat(k) + "s");
         v.push("\n".repeat(k) + "else");
     }
+    // far positions (lines / columns beyond 2^8 and 2^16) and long tokens
+    for k in [255usize, 256, 65535, 65536, 70000] {
+        v.push("\n".repeat(k) + "x a1 \"u");
+        v.push(" ".repeat(k) + "x_y is's (u");
+        v.push(format!("({})'s x is\nelse", "\n".repeat(k)));
+        v.push(format!("say \"{}\"'s 5 a1", "é".repeat(k)));
+        v.push(format!("{} is 5", "x".repeat(k)));
+        v.push(format!("x is {}", "1".repeat(k)));
+        v.push(format!("say {}", "9".repeat(k)));
+    }
     v
 }
 
